@@ -181,6 +181,14 @@ def r5(ctx, prog):
             ok = True
             bc_d = dd["d"]
     ctx.check(R, ok, f.where(), "block count = size / MI_ARENA_BLOCK_SIZE (rounded down, never _mi_divide_up)", key="C15.R5:bcount")
+    if ok:
+        # ... of the *trimmed* size: no change of size (or start) can follow the computation of the block count
+        bdef = next(a for a, rhs, op in f.var_defs(bc_d) if op == "decl")
+        late = [a for d_ in (p_size, p_start) for a, rhs, op in f.var_defs(d_) if op != "addr" and cfg.reaches(cfg.after(bdef), cfg.pt(a))]
+        # (with a helper that trims through &start/&size the stores are seen here after inlining; a helper that is not inlined shows as `addr`)
+        late += [a for d_ in (p_size, p_start) for a, rhs, op in f.var_defs(d_) if op == "addr" and cfg.pt(a) is not None and cfg.reaches(cfg.after(bdef), cfg.pt(a))]
+        ctx.check(R, not late, f.where(bdef), "the block count is computed from the size after the alignment trim (no later change of start/size%s)" % (": " + f.loc(late[0]) if late else ""),
+                  key="C15.R5:bcount:fresh")
     # start re-assigned only from an align-up of itself; size only reduced by (aligned_start - start)
     import re as _re
     up = r"(?:mi_align_up_ptr|_mi_align_up)\(\$0,\d+\)"
@@ -194,6 +202,16 @@ def r5(ctx, prog):
             continue
         t = rl.canon(f, rhs).replace(" ", "") if rhs is not None else "?"
         ctx.check(R, op == "=" and bool(_re.fullmatch(r"\(\$1-\(%s-\$0\)\)" % up, t)), f.where(a), "size is only reduced by the alignment difference: %s" % t, key="C15.R5:size")
+    # moving the start and shrinking the size go together on every path
+    sdefs_ = [a for a, rhs, op in f.var_defs(p_start) if op == "="]
+    zdefs_ = [a for a, rhs, op in f.var_defs(p_size) if op == "="]
+    for a in sdefs_:
+        paired = cfg.must_pass([cfg.after(a)], cfg.exit_points(), lambda e: e in zdefs_, edge_ok=None) is None or rl.precedes(f, lambda e: e in zdefs_, a) is None
+        # (an exit that gives up — `return false` — needs no size)
+        if not paired:
+            paired = all(rl.returns_only(f, cfg.after(a), 0) for _ in [0]) if not any(cfg.reaches(cfg.after(a), cfg.pt(z)) for z in zdefs_) else \
+                cfg.must_pass([cfg.after(a)], [p_ for p_ in cfg.exit_points()], lambda e: e in zdefs_ or (f.nodes[e]["k"] == "ReturnStmt" and f.cv(f.nodes[e].get("val", -1)) == 0)) is None
+        ctx.check(R, paired, f.where(a), "when the start is moved up the size is reduced on the same path", key="C15.R5:pair")
     # left-over bits
     claims = [c for c in f.calls("_mi_bitmap_claim") if f.mentions_field(rl.arg(f, c, 0), "blocks_inuse")]
     ctx.check(R, len(claims) >= 1, f.where(), "left-over bits of the last bitmap field are claimed in blocks_inuse", key="C15.R5:leftover")
